@@ -9,7 +9,7 @@
    later request until the step yields (the implementation check covers <= 3 requests at every boundary; the
    two known findings D8 / D3b are exactly the cases where it does not). *)
 From Coq Require Import List String Bool.
-From Plumpy Require Import Val Mon PortModel Model Run LifePath LifeBook LifeSx LifeFx.
+From Plumpy Require Import Val Mon PortModel Model Run LifePath LifeBook LifeSx LifeFx LifePtr.
 Import ListNotations.
 
 (* kill() requested between any two loop callbacks of any run returns a result, never an exception *)
@@ -41,6 +41,30 @@ Theorem C04_kill_during_step :
                     option_map label_of (st w') = option_map label_of (st w) /\ stepping w' = true /\ paused w' = None) w.
 Proof. exact kill_deferred. Qed.
 Print Assumptions C04_kill_during_step.
+
+(* IN EVERY RUN — any program, listener scripts (re-entrant control calls), callbacks, any schedule of any length; hooks may
+   even raise — the bookkeeping of pending requests is never stale: `_killing` (resp. `_pausing`), when set, is THE armed
+   interrupt action, that action exists, is still pending (neither cancelled nor already run) and is a kill (resp. pause)
+   action; and an interrupt action is armed only while a step is in flight.  The configuration in which kill() keeps
+   answering with a dead future and the process can no longer be killed (defects D9, D16, D17 before their repair)
+   is therefore unreachable.  Proof: Life/LifePtr.v (invariant P, compositional Hoare triples). *)
+Theorem C04_requests_never_stale :
+  forall c es w, run c es = Some w ->
+    (stepping w = false -> intr w = None)
+    /\ (forall a, pausing w = Some a -> intr w = Some a /\
+                   exists ac, get_act w a = Some ac /\ a_fut ac = AfPending /\ is_pause (a_kind ac) = true)
+    /\ (forall a, killing w = Some a -> intr w = Some a /\
+                   exists ac, get_act w a = Some ac /\ a_fut ac = AfPending /\ is_kill (a_kind ac) = true)
+    /\ (forall a, intr w = Some a -> a < List.length (acts w)).
+Proof. exact run_pointers. Qed.
+Print Assumptions C04_requests_never_stale.
+
+(* between steps nothing is pending: a kill() or pause() made then is carried out at once *)
+Theorem C04_nothing_pending_between_steps :
+  forall c es w, run c es = Some w -> stepping w = false ->
+    intr w = None /\ pausing w = None /\ killing w = None.
+Proof. exact nothing_pending_between_steps. Qed.
+Print Assumptions C04_nothing_pending_between_steps.
 
 (* a kill, like every other event, never moves a terminated process: the outcome of a killed process stays KILLED *)
 Theorem C04_killed_is_final :
